@@ -121,6 +121,42 @@ func runC10(c *Ctx) {
 	// ---------- O-3 ----------
 	c.checkArmorVersion()
 
+	// ---------- O-3b encoder Close order ----------
+	if cl := p.Fn("common/amp", "(*armorEncoder).Close"); cl != nil {
+		var b64, elem, trailer ssa.Instruction
+		for _, ci := range callsIn(cl) {
+			switch calleeName(ci) {
+			case "(io.WriteCloser).Close", "(io.Closer).Close":
+				b64 = ci
+			case "(*common/amp.elementEncoder).Close":
+				elem = ci
+			case "(io.Writer).Write":
+				trailer = ci
+			}
+		}
+		good := b64 != nil && elem != nil && trailer != nil && precedes(b64, elem) && precedes(elem, trailer)
+		c.check(good, "O-3 version, alphabet and single stream agree", "armorEncoder.Close flushes base64, then closes the element, then writes the trailer", p.Pos(cl.Pos()), "",
+			"the closing order is not base64 -> element -> boilerplate trailer: the final base64 quantum or the closing </pre> lands outside the element (or is lost)")
+		// errors of the first two steps are returned
+		for _, st := range []ssa.Instruction{b64, elem} {
+			if cc, ok := st.(*ssa.Call); ok && elem != nil && b64 != nil {
+				ne := nilCheckEdges(cl, false, func(v ssa.Value) bool { return v == ssa.Value(cc) })
+				c.check(len(ne) > 0, "O-3 version, alphabet and single stream agree", "armorEncoder.Close checks the error of "+calleeName(cc), p.instrPos(cc), "", "a failed flush/close is ignored")
+			}
+		}
+	}
+	if ecl := p.Fn("common/amp", "(*elementEncoder).Close"); ecl != nil {
+		lits := map[string]bool{}
+		for _, ci := range callsIn(ecl) {
+			if calleeName(ci) == "(io.Writer).Write" {
+				if s, ok := constString(ci.Common().Args[0]); ok {
+					lits[s] = true
+				}
+			}
+		}
+		c.check(lits["</pre>\n"] && lits["\n</pre>\n"], "O-3 version, alphabet and single stream agree", "elementEncoder.Close terminates an open element (after a separator if a word is in progress)", p.Pos(ecl.Pos()), "", fmt.Sprintf("closing literals are %v", sortedKeys(lits)))
+	}
+
 	// ---------- O-4 ----------
 	c.checkArmorStateMachine(dec)
 
